@@ -59,9 +59,11 @@ pub enum Hostile {
     Enospc,
     /// read returns 0 although data remain (file truncated under the handle)
     EarlyEof,
+    /// something that is not a directory is in the way (mkdir)
+    Eexist,
 }
 
-pub const HOSTILES: [Hostile; 7] = [
+pub const HOSTILES: [Hostile; 8] = [
     Hostile::Eio,
     Hostile::Enoent,
     Hostile::Eacces,
@@ -69,6 +71,7 @@ pub const HOSTILES: [Hostile; 7] = [
     Hostile::Emfile,
     Hostile::Enospc,
     Hostile::EarlyEof,
+    Hostile::Eexist,
 ];
 
 impl Hostile {
@@ -80,6 +83,7 @@ impl Hostile {
             Hostile::Erofs => libc::EROFS,
             Hostile::Emfile => libc::EMFILE,
             Hostile::Enospc => libc::ENOSPC,
+            Hostile::Eexist => libc::EEXIST,
         };
         io::Error::from_raw_os_error(code)
     }
@@ -202,7 +206,7 @@ pub const DONE_NAMES: [&str; 8] = [
 pub struct Stats {
     /// fired[call][done]
     pub fired: [[u64; 8]; 10],
-    pub hostile_fired: [u64; 7],
+    pub hostile_fired: [u64; 8],
     pub steps: u64,
     pub sched_hash: u64,
     /// a short read/write or EINTR happened while the destination buffer was <= 16 bytes
@@ -214,7 +218,7 @@ impl Default for Stats {
     fn default() -> Self {
         Stats {
             fired: [[0; 8]; 10],
-            hostile_fired: [0; 7],
+            hostile_fired: [0; 8],
             steps: 0,
             sched_hash: FNV_INIT,
             split_small: 0,
@@ -290,6 +294,14 @@ impl Inner {
         let bytes = path.as_os_str().as_bytes();
         if bytes.is_empty() {
             return Err(enoent());
+        }
+        // PATH_MAX and NAME_MAX, as on Linux
+        if bytes.len() >= 4096 || bytes.split(|b| *b == b'/').any(|c| c.len() > 255) {
+            return Err(io::Error::from_raw_os_error(libc::ENAMETOOLONG));
+        }
+        if bytes.contains(&0) {
+            // std refuses paths with an interior NUL before any system call
+            return Err(io::Error::new(io::ErrorKind::InvalidInput, "file name contained an unexpected NUL byte"));
         }
         let mut cur: Vec<u8> = Vec::new(); // root
         let comps: Vec<&[u8]> = bytes.split(|b| *b == b'/').filter(|c| !c.is_empty()).collect();
